@@ -85,6 +85,7 @@ def scenarios(tier):
                 L.append("hashhook %s %s %s" % (fl, ep, who))
             if fl == "verifying":
                 L.append("genhook %s %s" % (fl, ep))
+                L.append("eqhook %s %s" % (fl, ep))
             if ep in ("queryAdapter", "adapter_hook", "queryMultiAdapter"):
                 L.append("superself %s %s" % (fl, ep))
             if ep in ("queryAdapter", "adapter_hook", "queryMultiAdapter", "lookup"):
